@@ -121,17 +121,20 @@ for c in contents:
             fail("c15:expand#nothing-inside-nowiki-is-expanded", f"content {c!r} in {cname}: hook saw {inner_calls}",
                  {"content": c, "context": cname})
         if cname == "top":
-            ctx.start_page("Tt")
-            try:
-                with quiet_stdout():
-                    root = ctx.parse(text)
-            except Exception as ex:
-                fail("c15:parse#no-exception", f"{type(ex).__name__}: {ex}", {"content": c}, type(ex).__name__)
-                continue
-            ks = kinds_of(root, [])
-            txt = "".join(texts_of(root, []))
-            if ks or (c != "" and decode(html.unescape(txt)) != "X" + c + "Y" and decode(txt) != "X" + c + "Y"):
-                fail("c15:parse#single-text-node", f"content {c!r}: kinds {ks}, text {txt!r}", {"content": c})
+            # parse: in running text, at the very start of the page and at the start of a later line
+            for pre, post in (("X", "Y"), ("", "Y"), ("a\n", "")):
+                ptext = pre + nw + post
+                ctx.start_page("Tt")
+                try:
+                    with quiet_stdout():
+                        root = ctx.parse(ptext)
+                except Exception as ex:
+                    fail("c15:parse#no-exception", f"{type(ex).__name__}: {ex}", {"content": c, "text": ptext}, type(ex).__name__)
+                    continue
+                ks = kinds_of(root, [])
+                txt = "".join(texts_of(root, []))
+                if ks or (c != "" and decode(html.unescape(txt)) != pre + c + post and decode(txt) != pre + c + post):
+                    fail("c15:parse#single-text-node", f"{ptext!r}: kinds {ks}, text {txt!r}", {"content": c, "text": ptext})
     distinct.add(c)
 samples.append({"content": contents[len(contents) // 2]})
 
